@@ -217,6 +217,21 @@ theorem table_bounded [FloatOps F] : ∀ e ∈ (table : List (Entry F)), e.body.
   · show (GenPrims.boolean_zeroP : Prog F (Val F)).Bounded _; unfold GenPrims.boolean_zeroP; bounded_steps
   · show (GenPrims.boolean_oneP : Prog F (Val F)).Bounded _; unfold GenPrims.boolean_oneP; bounded_steps
 
+/-- `integer::number` (body generated from int.h): whatever the gene's parameter is – NaN, ±inf, beyond the
+    `int` range (a parameter read by `i_mep::load`) – the body asks for nothing, never throws and returns an
+    `int`: the saturation bounds when the parameter is at or beyond them, 0 for a NaN (`p ≠ p`), the
+    truncation otherwise -/
+theorem number_returns_int [FloatOps F] (argv : Nat → Option (Val F)) (p : F) (vars : Nat → Val F) :
+    (GenPrims.integer_numberP : Prog F (Val F)).runPure argv p vars =
+      some (.int (if FloatOps.le (FloatOps.ofInt 2147483647) p = true then 2147483647
+                  else if FloatOps.le p (FloatOps.ofInt (-2147483648)) = true then -2147483648
+                  else if FloatOps.eq p p = false then 0
+                  else FloatOps.toInt p)) := by
+  unfold GenPrims.integer_numberP
+  simp only [Prog.runPure]
+  repeat' split
+  all_goals simp_all [Prog.runPure]
+
 theorem varP_bounded [FloatOps F] (k n : Nat) : (varP k : Prog F (Val F)).Bounded n := by
   unfold varP GenPrims.variableP; bounded_steps
 
